@@ -180,6 +180,7 @@ func registerModels(e *Engine) {
 						continue
 					}
 					env := a.specEnv(st)
+					env.vars["response"] = res.Tup[0]
 					if f, err := env.evalBool(c.Expr); err == nil {
 						a.vc.assume(st.guard, implies(res.Tup[1].S, f))
 						a.vc.noteAssumed("rely (responder of " + c.LoopFn + "): " + c.Text)
